@@ -54,6 +54,8 @@ def integrands(dom):
         "L/cond_v_v": (conditional(lt(f, k), conj(v) * f, conj(v) * k), [v]),
         "L/cond_v_const": (conditional(lt(f, k), conj(v), 1), [v]), "L/cond_v_f": (conditional(lt(f, k), conj(v), f), [v]),
         "L/cond_on_v": (conditional(lt(v, k), f, k), [v]),
+        "L/cond_const_v": (conditional(lt(f, k), 1, conj(v)), [v]), "L/cond_f_v": (conditional(lt(f, k), f, conj(v)), [v]),
+        "L/cond_f_fv": (conditional(lt(f, k), f, f * conj(v)), [v]), "L/cond_0_v_times": (conditional(lt(f, k), 0, conj(v)) * f, [v]),
         "L/list_v_0": (as_vector([conj(v), 0])[i] * w[i] if g == 2 else f * conj(v), [v]),
         "L/list_v_1": (as_vector([conj(v), 1])[i] * w[i] if g == 2 else f * conj(v) + f, [v]),
         "L/list_v_f": (dot(as_vector([conj(v), f] + [0] * (g - 2)), w), [v]),
@@ -71,6 +73,7 @@ def integrands(dom):
         "B/gradgrad": (f * inner(grad(u), grad(v)), [v, u]), "B/dot_gradgrad": (dot(grad(u), grad(conj(v))), [v, u]),
         "B/u*v+v": (u * conj(v) + conj(v), [v, u]), "B/u*v+u": (u * conj(v) + u, [v, u]),
         "B/u*u*v": (u * u * conj(v), [v, u]), "B/u*v*v": (u * conj(v) * conj(v), [v, u]),
+        "B/u_times_cond_k_v": (u * conditional(lt(f, 1), k, conj(v)), [v, u]), "B/cond_0_uv": (conditional(lt(f, 1), 0, inner(u, v)), [v, u]),
         "B/cond": (conditional(lt(f, 1), inner(u, v), 0), [v, u]), "B/cond_mixed": (conditional(lt(f, 1), inner(u, v), conj(v)), [v, u]),
         "B/cond_uv_uvk": (conditional(lt(f, k), inner(u, v), k * inner(u, v)), [v, u]),
         "B/sum_swapped": (inner(u, v) + inner(v, u), [v, u]), "B/u/f*v": (u / f * conj(v), [v, u]),
